@@ -26,6 +26,7 @@ func init() {
 			{ID: "C07.4", Desc: "delete every variant, the index, and same-origin Location targets", Run: ruleC07_4, MinSites: 4},
 			{ID: "C07.5", Desc: "origin test: scheme, host, port", Run: ruleC07_5, MinSites: 1},
 			{ID: "C07.6", Desc: "one key function", Run: func(c *Ctx) { ruleOneKeyer(c, "C07.6") }, MinSites: 2},
+			{ID: "C07.8", Desc: "the set of keys already deleted is local to one invalidation", Run: ruleC07_8, MinSites: 1},
 			{ID: "C07.7", Desc: "the location loop has no early exit", Run: func(c *Ctx) { ruleLocationLoopComplete(c, "C07.7") }, MinSites: 1},
 		},
 	})
@@ -459,4 +460,63 @@ func instrDominates(a, b ssa.Instruction) bool {
 		return false
 	}
 	return a.Block().Dominates(b.Block())
+}
+
+// ruleC07_8: the invalidator may skip a key it has already deleted *in this call*. If the set that records deleted keys
+// outlives the call (a struct field, a package variable), a key deleted once is skipped for ever: after the URI was stored
+// again a second unsafe request leaves it in place. Every map whose lookup guards a delete call in the invalidator's tree
+// is created (make / literal) inside that tree.
+func ruleC07_8(c *Ctx) {
+	if !c.Need("C07.8", "invalidate", "deleteKey") {
+		return
+	}
+	desc := "a lookup that lets the invalidator skip a delete consults a set created during the same call"
+	n := 0
+	bad := ""
+	for _, fn := range c.reachableFrom(c.A.F("invalidate")) {
+		instrsOf(fn, func(in ssa.Instruction) {
+			if !c.An.CallsRole(in, "deleteKey") {
+				return
+			}
+			for _, dc := range dominatingConds(in.Block()) {
+				for _, lf := range condLeaves(dc.cond, dc.onTrue) {
+					ex, ok := lf.v.(*ssa.Extract)
+					if !ok {
+						continue
+					}
+					lk, ok := ex.Tuple.(*ssa.Lookup)
+					if !ok || !lk.CommaOk {
+						continue
+					}
+					n++
+					c.P.TraceBack(lk.X, TraceOpts{NoHeapFields: true}, func(v ssa.Value, _ []int) bool {
+						switch y := v.(type) {
+						case *ssa.MakeMap:
+							return false
+						case *ssa.UnOp:
+							switch base := y.X.(type) {
+							case *ssa.FieldAddr:
+								if _, local := c.An.canon(base.X).(*ssa.Alloc); !local {
+									bad = fmt.Sprintf("%s: the set consulted before the delete at %s is loaded from the field %s, which outlives the call", c.P.ShortName(fn), c.P.InstrPos(in), fieldName(base.X.Type(), base.Field))
+									return false
+								}
+							case *ssa.Global:
+								bad = fmt.Sprintf("%s: the set consulted before the delete at %s is the package variable %s", c.P.ShortName(fn), c.P.InstrPos(in), base.Name())
+								return false
+							}
+						}
+						return true
+					})
+				}
+			}
+		})
+	}
+	switch {
+	case bad != "":
+		c.Fail("C07.8", "dedup-set-local", desc, bad+"; after PUT /x, GET /x (stored again), PUT /x the stored response survives and is served as a HIT")
+	case n == 0:
+		c.Pass("C07.8", "dedup-set-local", desc, "no delete in the invalidator is guarded by a set lookup")
+	default:
+		c.Pass("C07.8", "dedup-set-local", desc, fmt.Sprintf("%d guarded delete site(s), set created in the call", n))
+	}
 }
